@@ -276,25 +276,40 @@ def lastStop (t : Tour) : Option Stop := t.stops.getLast?
 def tourDeparture (t : Tour) : Int := match firstStop t with | some s => s.departure | none => 0
 def tourArrival (t : Tour) : Int := match lastStop t with | some s => s.arrival | none => 0
 
+/-- the start time offsets are counted from (`get_break_time_window`, `get_route_start_time`, routing's
+`time_offset`): the end of the departure activity when it carries a time (a break served at the start location is
+part of the first stop), else the departure of the first stop -/
+def tourStart (t : Tour) : Int :=
+  match firstStop t with
+  | none => 0
+  | some s => match s.acts.head? with
+    | some a => (match a.time with | some tm => tm.2 | none => s.departure)
+    | none => s.departure
+
 def shiftMeets (s : Shift) (span : Int × Int) : Bool :=
   decide (s.startEarliest ≤ span.2) && (match s.end_ with | none => true | some e => decide (span.1 ≤ e.latest))
 
-/-- `get_vehicle_shift`: the FIRST shift whose time range meets [first arrival, last arrival]
-(`tour.shift_index` is not looked at) -/
+/-- `get_vehicle_shift`: the shift named by `tour.shift_index` if its time range meets [first arrival, last
+arrival], else the first shift that does -/
 def vehicleShift (P : Problem) (t : Tour) : Except Code Shift :=
   match firstStop t, lastStop t with
   | some f, some l =>
     match findVehicle P t.vehicleId with
     | none => .error .no_vehicle
     | some v =>
-      match v.shifts.find? (fun s => shiftMeets s (f.arrival, l.arrival)) with
-      | none => .error .no_shift
+      match (match v.shifts[t.shiftIndex]? with
+             | some s => if shiftMeets s (f.arrival, l.arrival) then some s else none
+             | none => none) with
       | some s => .ok s
+      | none =>
+        match v.shifts.find? (fun s => shiftMeets s (f.arrival, l.arrival)) with
+        | none => .error .no_shift
+        | some s => .ok s
   | _, _ => .error .no_stops
 
 /-- `get_break_time_window` (optional breaks) -/
 def breakWindow (t : Tour) (b : Break) : Int × Int :=
-  if b.offset then (tourDeparture t + b.t0, tourDeparture t + b.t1) else (b.t0, b.t1)
+  if b.offset then (tourStart t + b.t0, tourStart t + b.t1) else (b.t0, b.t1)
 
 /-- `get_activity_time` / `get_time_window` -/
 def actTime (s : Stop) (a : Act) : Int × Int := match a.time with | some t => t | none => (s.arrival, s.departure)
@@ -423,6 +438,21 @@ def changeGo (P : Problem) (t : Tour) (to : Stop) (ep : Load) : Load → List Ac
           | .sPickup | .dPickup => ladd acc d
           | _ => acc) rest
 
+/-- the `start_load` fold: job activities of the interval's FIRST stop change the load it starts with -/
+def startGo (P : Problem) (t : Tour) (s0 : Stop) : Load → List Act → Except Code Load
+  | acc, [] => .ok acc
+  | acc, a :: rest =>
+    match activityType P t s0 a with
+    | .error c => .error c
+    | .ok aty =>
+      match demandOf a aty with
+      | .error c => .error c
+      | .ok (k, d) =>
+        startGo P t s0 (match k with
+          | .sDelivery | .dDelivery => lsub acc d
+          | .sPickup | .dPickup => ladd acc d
+          | _ => acc) rest
+
 /-- the leg fold of one interval -/
 def legsGo (P : Problem) (t : Tour) (cap ep : Load) : Load → Stop → List Stop → Except Code Load
   | acc, _, [] => .ok acc
@@ -445,9 +475,12 @@ def intervalsGo (P : Problem) (t : Tour) (cap : Load) : Load → List (List Stop
       match iv with
       | [] => intervalsGo P t cap (lsub sd ep) rest
       | s0 :: tl =>
-        match legsGo P t cap ep sd s0 tl with
+        match startGo P t s0 sd s0.acts with
         | .error c => .error c
-        | .ok endCap => intervalsGo P t cap (lsub endCap ep) rest
+        | .ok sl =>
+          match legsGo P t cap ep sl s0 tl with
+          | .error c => .error c
+          | .ok endCap => intervalsGo P t cap (lsub endCap ep) rest
 
 /-- `check_vehicle_load_assignment` for one tour -/
 def checkLoadTour (P : Problem) (t : Tour) : Option Code :=
@@ -491,23 +524,37 @@ def intersection (left right : List String) : List String :=
 
 def jobTaskCount (P : Problem) (id : String) : Nat := match findJob P id with | some j => j.tasks.length | none => 1
 
+/-- `is_subsequence` -/
+def isSubseq : List String → List String → Bool
+  | [], _ => true
+  | _ :: _, [] => false
+  | x :: xs, y :: ys => if x == y then isSubseq xs ys else isSubseq (x :: xs) ys
+
+/-- `expected_relation_count`: a customer job once per task, a reserved id once per occurrence -/
+def relationCount (P : Problem) (jobs : List String) (id : String) : Nat :=
+  match findJob P id with
+  | some j => j.tasks.length
+  | none => countP (fun x => x == id) jobs
+
 def checkRelation (P : Problem) (S : Solution) (r : Relation) : Option Code :=
   match findTour S r.vehicleId (r.shiftIndex.getD 0) with
   | none =>
     match r.kind with
-    | .any => if S.tours.any (fun t => (tourIds t).any (fun id => r.jobs.contains id)) then some .rel_any else none
+    | .any => if S.tours.any (fun t => (tourIds t).any (fun id => !isReservedId id && r.jobs.contains id)) then some .rel_any else none
     | _ => some .rel_no_tour
   | some tour =>
     let ids := tourIds tour
     let distinct := dedup r.jobs
     if distinct.any (fun id => (findJob P id).isNone && !isReservedId id) then some .rel_unknown_job
-    else if (distinct.map (jobTaskCount P)).sum != r.jobs.length then some .rel_dup
+    else if (distinct.map (relationCount P r.jobs)).sum != r.jobs.length then some .rel_dup
     else
       match r.kind with
       | .strict => if intersection ids r.jobs != r.jobs then some .rel_strict else none
-      | .sequence => if ids.filter (fun id => r.jobs.contains id) != r.jobs then some .rel_sequence else none
+      | .sequence =>
+        let kept := ids.filter (fun id => r.jobs.contains id)
+        if (if r.jobs.any isReservedId then !isSubseq r.jobs kept else kept != r.jobs) then some .rel_sequence else none
       | .any =>
-        if S.tours.any (fun o => o.vehicleId != tour.vehicleId && (tourIds o).any (fun id => r.jobs.contains id))
+        if S.tours.any (fun o => o.vehicleId != tour.vehicleId && (tourIds o).any (fun id => !isReservedId id && r.jobs.contains id))
         then some .rel_any else none
 
 def checkRelations (P : Problem) (S : Solution) : List (Option Code) :=
@@ -515,11 +562,16 @@ def checkRelations (P : Problem) (S : Solution) : List (Option Code) :=
 
 /-! ## Group 3: breaks (breaks.rs) -/
 
-/-- the legs `activities.windows(min(len, 2))` of a stop as (from?, to) -/
-def actLegs : List Act → List (Option Act × Act)
+/-- the legs `activities.windows(min(len, 2))` of a stop as (is first leg, from?, to) -/
+def actLegsGo : Bool → List Act → List (Bool × Option Act × Act)
+  | _, [] => []
+  | _, [_] => []
+  | first, a :: b :: rest => (first, some a, b) :: actLegsGo false (b :: rest)
+
+def actLegs : List Act → List (Bool × Option Act × Act)
   | [] => []
-  | [a] => [(none, a)]
-  | a :: b :: rest => (some a, b) :: (match rest with | [] => [] | _ => actLegs (b :: rest))
+  | [a] => [(true, none, a)]
+  | acts => actLegsGo true acts
 
 def breakOf (P : Problem) (t : Tour) (s : Stop) (a : Act) : Option Break :=
   match activityType P t s a with
@@ -528,18 +580,18 @@ def breakOf (P : Problem) (t : Tour) (s : Stop) (a : Act) : Option Break :=
 
 /-- `as_leg_info_with_break` + the body of the fold in `check_break_assignment` for one leg:
 `none` = leg without a break, `some (error?)` = a break was seen -/
-def legBreak (P : Problem) (t : Tour) (s : Stop) (leg : Option Act × Act) : Option (Option Code) :=
-  let to := leg.2
+def legBreak (P : Problem) (t : Tour) (s : Stop) (leg : Bool × Option Act × Act) : Option (Option Code) :=
+  let to := leg.2.2
   let cand : Option (Act × Break) :=
     match breakOf P t s to with
     | some b => some (to, b)
-    | none => match leg.1 with
+    | none => match leg.2.1 with
       | none => none
-      | some f => (breakOf P t s f).map (fun b => (f, b))
+      | some f => if leg.1 then (breakOf P t s f).map (fun b => (f, b)) else none
   match cand with
   | none => none
   | some (ba, b) =>
-    let fromLoc : Nat := match leg.1 with
+    let fromLoc : Nat := match leg.2.1 with
       | some f => (match f.loc with | some l => l | none => s.loc)
       | none => s.loc
     if !meets (actTime s ba) (breakWindow t b) then some (some .brk_time)
@@ -549,7 +601,7 @@ def legBreak (P : Problem) (t : Tour) (s : Stop) (leg : Option Act × Act) : Opt
       then some none else some (some .brk_loc)
 
 /-- matched break count over all stops, or the first error -/
-def matchedBreaks (P : Problem) (t : Tour) : Nat → List (Stop × (Option Act × Act)) → Except Code Nat
+def matchedBreaks (P : Problem) (t : Tour) : Nat → List (Stop × (Bool × Option Act × Act)) → Except Code Nat
   | acc, [] => .ok acc
   | acc, (s, leg) :: rest =>
     match legBreak P t s leg with
@@ -561,7 +613,7 @@ def shouldAssign (t : Tour) (b : Break) : Bool :=
   let w := breakWindow t b
   match b.policy with
   | some .arrivalBeforeEnd => decide (tourArrival t > w.2)
-  | _ => decide (w.1 < tourArrival t)
+  | _ => meets w (tourDeparture t, tourArrival t)
 
 def tourActs (t : Tour) : List Act := t.stops.flatMap (fun s => s.acts)
 
@@ -577,7 +629,7 @@ def checkBreaksTour (P : Problem) (S : Solution) (t : Tour) : Option Code :=
       else
         let expected := countP (shouldAssign t) shift.breaks
         let total := actual + countP (fun v => v.1 == t.vehicleId && v.2 == t.shiftIndex) S.violations
-        if expected != total then some .brk_count else none
+        if total < expected || total > shift.breaks.length then some .brk_count else none
 
 def checkBreaks (P : Problem) (S : Solution) : List (Option Code) :=
   [firstErrOf (checkBreaksTour P S) S.tours]
@@ -693,24 +745,16 @@ def lastSome (f : α → Option β) : List α → Option β
     | some y => some y
     | none => f x
 
-/-- `match_place`: duration and window start of the matched place -/
+/-- `match_place`: duration and window start of the first place that carries the activity's tag and fits location and
+time; the window is the FIRST time span that meets the activity time -/
 def matchPlace (single : List MPlace) (loc : Nat) (start : Int) (t : Int × Int) (tag : Option String) : Option (Int × Int) :=
-  -- `get_job_tag`: first TAGGED place fitting location and time
-  let jobTag := ((single.filter (fun p => p.tag.isSome)).find? (fun p => placeFits p loc start t)).bind (fun p => p.tag)
-  let sameTags := match jobTag, tag with
-    | some a, some b => a == b
-    | none, none => true
-    | _, _ => false
-  if !sameTags then none
-  else
-    match single.find? (fun p => placeFits p loc start t) with
+  match single.find? (fun p => p.tag == tag && placeFits p loc start t) with
+  | none => none
+  | some p =>
+    match p.times.find? (fun sp => TSpan.meets sp start t) with
     | none => none
-    | some p =>
-      -- "search for the latest occurrence": the LAST time span that meets the activity time
-      match lastSome (fun sp => if TSpan.meets sp start t then some sp else none) p.times with
-      | none => none
-      | some (.window w) => some (p.dur, w.s)
-      | some (.offset _ _) => some (p.dur, t.2 - p.dur)
+    | some (.window w) => some (p.dur, w.s)
+    | some (.offset _ _) => some (p.dur, t.2 - p.dur)
 
 /-- `get_extra_time`: a break inside the same stop that overlaps the service -/
 def extraTime (s : Stop) (a : Act) (dur : Int) : Int :=
@@ -732,7 +776,7 @@ def extraTime (s : Stop) (a : Act) (dur : Int) : Int :=
 def actUnmatched (P : Problem) (t : Tour) (s : Stop) (a : Act) : Bool :=
   let loc := actLoc s a
   let time := actTime s a
-  let start := tourDeparture t
+  let start := tourStart t
   let validInfo (info : Option (Int × Int)) : Bool :=
     match info with
     | none => true
@@ -755,7 +799,11 @@ def actUnmatched (P : Problem) (t : Tour) (s : Stop) (a : Act) : Bool :=
       | none => true
       | some shift =>
         let cands := if a.ty == .brk then shift.breaks.map singleOfBreak else shift.reloads.map singleOfReload
-        validInfo (cands.findSome? (fun sg => matchPlace sg loc start time a.tag))
+        let infos := cands.filterMap (fun sg => matchPlace sg loc start time a.tag)
+        -- several candidates can share location and tag: the first with a consistent duration, else the first
+        validInfo (match infos.find? (fun i => time.2 == max time.1 i.2 + i.1) with
+                   | some i => some i
+                   | none => infos.head?)
   | _ => true
 
 def checkMatch (P : Problem) (S : Solution) : Option Code :=
@@ -1010,11 +1058,11 @@ deliveries still ahead in the interval + pickups collected since its start + dyn
 at the stop that ends the tour (arrival) the collected pickups are unloaded -/
 def expectedLoad (P : Problem) (dynBefore : Int) (iv : List Stop) (m d : Nat) : Int :=
   let ahead := sumBy (fun s => (stopDelta P s d).1) (iv.drop (m + 1))
-  let sofar := sumBy (fun s => (stopDelta P s d).2.1) ((iv.take (m + 1)).drop 1)
-  let dyn := dynBefore + sumBy (fun s => (stopDelta P s d).2.2) ((iv.take (m + 1)).drop 1)
+  let sofar := sumBy (fun s => (stopDelta P s d).2.1) (iv.take (m + 1))
+  let dyn := dynBefore + sumBy (fun s => (stopDelta P s d).2.2) (iv.take (m + 1))
   let unloaded := match iv[m]? with
     | some s => if m ≥ 1 && s.acts.any (fun a => a.ty == .arrival || a.ty == .reload)
-                then sumBy (fun s => (stopDelta P s d).2.1) (iv.drop 1) else 0
+                then sumBy (fun s => (stopDelta P s d).2.1) iv else 0
     | none => 0
   ahead + sofar + dyn - unloaded
 
@@ -1037,7 +1085,7 @@ def intervalsLoadsOk (P : Problem) (cap : Load) (nd : Nat) : List Int → List (
   | dynBefore, iv :: rest =>
     intervalLoadsOk P cap nd dynBefore iv &&
     intervalsLoadsOk P cap nd
-      ((List.range nd).map (fun d => dynBefore.getD d 0 + sumBy (fun s => (stopDelta P s d).2.2) (iv.drop 1))) rest
+      ((List.range nd).map (fun d => dynBefore.getD d 0 + sumBy (fun s => (stopDelta P s d).2.2) iv)) rest
 
 /-- every job activity refers to a task, every reload/break activity to something the shift defines -/
 def actsKnown (P : Problem) (t : Tour) : Bool :=
@@ -1065,7 +1113,7 @@ def legsOk (P : Problem) (v : VType) (skip : Bool) : List Stop → Bool
      | none => false
      | some (dist, dur) =>
        decide (absI (a.departure + dur - b.arrival) ≤ 1) &&
-       (skip || decide (absI ((if rest.length + 2 == 0 then 0 else a.distance) + dist - b.distance) ≤ 1)))
+       (skip || decide (absI (a.distance + dist - b.distance) ≤ 1)))
     && legsOk P v skip (b :: rest)
   | _ => true
 
@@ -1075,11 +1123,10 @@ def routingTourOk (P : Problem) (skip : Bool) (t : Tour) : Bool :=
   match findVehicle P t.vehicleId, firstStop t, lastStop t with
   | some v, some f, some l =>
     (match f.acts.head? with | some a => a.ty == .departure | none => false) &&
-    (skip || f.distance == 0 || t.stops.length ≤ 1) &&
+    (skip || f.distance == 0) &&
     legsOk P v skip t.stops &&
-    (skip || decide (absI ((if t.stops.length ≤ 1 then 0 else l.distance) - t.stat.distance) ≤ 1)) &&
-    decide (absI (l.departure - (match f.acts.head? with | some a => (match a.time with | some tm => tm.2 | none => f.departure) | none => f.departure)
-                  - t.stat.duration) ≤ 1)
+    (skip || decide (absI (l.distance - t.stat.distance) ≤ 1)) &&
+    decide (absI (l.departure - tourStart t - t.stat.duration) ≤ 1)
   | _, _, _ => false
 
 def routingOk (P : Problem) (S : Solution) : Bool :=
@@ -1152,8 +1199,8 @@ def breakDue (t : Tour) (b : Break) : Bool :=
   | some .arrivalBeforeEnd => decide (tourArrival t > w.2)
   | _ => meets w (tourDeparture t, tourArrival t)
 
-/-- every break activity lies in the window of a break of the shift at one of its places; breaks served plus
-breaks reported as violations = breaks due -/
+/-- every break activity lies in the window of a break of the shift at one of its places; every break that is due is
+served or reported as a violation, and not more breaks than the shift defines -/
 def breaksTourOk (P : Problem) (S : Solution) (t : Tour) : Bool :=
   match shiftOf P t with
   | none => false
@@ -1161,8 +1208,9 @@ def breaksTourOk (P : Problem) (S : Solution) (t : Tour) : Bool :=
     t.stops.all (fun s => s.acts.all (fun a => a.ty != .brk ||
       sh.breaks.any (fun b => meets (breakWindow t b) (actTime s a) &&
         b.places.any (fun p => match p.loc with | some l => actLoc s a == l | none => actLoc s a == s.loc)))) &&
-    countP (fun a => a.ty == .brk) (tourActs t) + countP (fun v => v.1 == t.vehicleId && v.2 == t.shiftIndex) S.violations
-      == countP (breakDue t) sh.breaks
+    (let total := countP (fun a => a.ty == .brk) (tourActs t)
+                    + countP (fun v => v.1 == t.vehicleId && v.2 == t.shiftIndex) S.violations
+     decide (countP (breakDue t) sh.breaks ≤ total) && decide (total ≤ sh.breaks.length))
 
 def breaksOk (P : Problem) (S : Solution) : Bool := S.tours.all (breaksTourOk P S)
 
@@ -1212,19 +1260,17 @@ def validSolution (P : Problem) (S : Solution) : Bool := (parts P S).all (fun p 
 
 /-! ## supported input shapes (where the unchanged checker decides correctly) -/
 
-/-- tour shape: starts with a lone departure activity in its own stop, `arrival` only as the last activity of a
-closed shift's tour, reload activities only as the first activity of a stop that is not the first stop,
-break activities only at the first or last position of a stop that is not the first stop (D1a, D5, D6, D9) -/
+/-- tour shape: the first activity of the first stop is the only `departure`, `arrival` only as the very last
+activity of a closed shift's tour, a `reload` only as the first activity of a stop that is not the first stop
+(D9: only the first activity makes a stop a reload stop) -/
 def tourShapeOk (P : Problem) (t : Tour) : Bool :=
   match t.stops with
   | [] => false
   | s0 :: rest =>
-    (s0.acts.map (fun a => a.ty)) == [.departure] &&
+    (match s0.acts.head? with | some a => a.ty == .departure | none => false) &&
     rest.all (fun s => !s.acts.isEmpty) &&
+    s0.acts.all (fun a => a.ty != .reload) &&
     rest.all (fun s => (s.acts.drop 1).all (fun a => a.ty != .reload)) &&
-    rest.all (fun s => !(isReloadStop s) || (s.acts.drop 1).all (fun a => !isJobTy a.ty)) &&
-    rest.all (fun s => ((s.acts.drop 1).dropLast).all (fun a => a.ty != .brk)) &&
-    (tourActs t).all (fun a => a.ty != .departure || true) &&
     countP (fun a => a.ty == .departure) (tourActs t) == 1 &&
     (match shiftOf P t with
      | none => false
@@ -1234,32 +1280,22 @@ def tourShapeOk (P : Problem) (t : Tour) : Bool :=
                     (match (tourActs t).getLast? with | some a => a.ty == .arrival | none => false)
         | none => countP (fun a => a.ty == .arrival) (tourActs t) == 0))
 
-/-- the shift found by time is the shift named by index (D7); break policies agree with the documented ones on
-this tour (D1b, D8, D10) -/
+/-- the shift the checker resolves is the shift named by index -/
 def shiftAgrees (P : Problem) (t : Tour) : Bool :=
   match shiftOf P t, vehicleShift P t with
-  | some a, .ok b => a == b && a.breaks.all (fun br => shouldAssign t br == breakDue t br)
+  | some a, .ok b => a == b
   | _, _ => false
 
 def problemShapeOk (P : Problem) : Bool :=
   !hasDup (P.jobs.map (fun j => j.id)) &&
   P.jobs.all (fun j => j.tasks.all (fun tk => tk.kind != .replacement && !tk.places.isEmpty)) &&
-  -- places of one job are told apart by location or tag, windows are far apart (D2, D4)
+  -- places of one job are told apart by location or tag
   P.jobs.all (fun j => !hasDup ((j.tasks.flatMap (fun tk => tk.places)).map (fun p => (p.loc, p.tag)))) &&
   -- multi-task jobs carry a tag on every place (the checker refuses them otherwise)
-  P.jobs.all (fun j => j.tasks.length ≤ 1 || j.tasks.all (fun tk => tk.places.all (fun p => p.tag.isSome))) &&
-  P.vehicles.all (fun v => v.shifts.all (fun sh =>
-    !hasDup (sh.reloads.map (fun r => (r.loc, r.tag))) || (dedup (sh.reloads.map (fun r => r.dur))).length ≤ 1)) &&
-  -- relations name reserved ids at most once (S29)
-  P.relations.all (fun r => !hasDup (r.jobs.filter isReservedId) && (r.kind != .any || r.jobs.all (fun id => !isReservedId id)))
+  P.jobs.all (fun j => j.tasks.length ≤ 1 || j.tasks.all (fun tk => tk.places.all (fun p => p.tag.isSome)))
 
 def supported (P : Problem) (S : Solution) : Bool :=
-  problemShapeOk P && S.tours.all (fun t => tourShapeOk P t && shiftAgrees P t) &&
-  -- S29a: a sequence relation names a reserved id only if the tour has it once
-  P.relations.all (fun r => r.kind != .sequence ||
-    (match findTour S r.vehicleId (r.shiftIndex.getD 0) with
-     | none => true
-     | some t => (r.jobs.filter isReservedId).all (fun id => countP (fun x => x == id) (tourIds t) ≤ 1)))
+  problemShapeOk P && S.tours.all (fun t => tourShapeOk P t && shiftAgrees P t)
 
 end Spec
 
